@@ -285,7 +285,7 @@ func r10Compare(c *Ctx, p *Prog, cp string) {
 			pe.inline = func(callee *ssa.Function) bool {
 				// helpers that work on values already read (compareNull(xNull, yNull), compareBytes(x, y)); never the
 				// cell accessors and null predicates the oracle interprets itself
-				if callee.Pkg != fn.Pkg || callee.Name() == "isNull" || callee.Name() == "IsNull" {
+				if callee.Pkg != fn.Pkg || callee.Name() == "isNull" || callee.Name() == "IsNull" || isNullPredFn(callee) {
 					return false
 				}
 				for i, prm := range callee.Params {
